@@ -60,7 +60,7 @@ class Unit:
         self.notes = []
 
 
-DIRECTIVES = ('foldinv', 'foldloops', 'closure', 'fornext', 'boxiter', 'assert', 'forwhile', 'selfparam', 'props', 'requires', 'ensures', 'loop', 'rewrite', 'rewrite*', 'insert', 'emit', 'attr', 'rename',
+DIRECTIVES = ('strmatch', 'foldinv', 'foldloops', 'closure', 'fornext', 'boxiter', 'assert', 'forwhile', 'selfparam', 'props', 'requires', 'ensures', 'loop', 'rewrite', 'rewrite*', 'insert', 'emit', 'attr', 'rename',
               'ret', 'end', 'recommends', 'decreases', 'nocanary')
 
 
@@ -110,7 +110,9 @@ def parse_unit(path):
                     i += 1
                 u.items.append(('spec', '\n'.join(buf), start))
             elif w[0] == 'type':
-                u.items.append(('type', w[1], w[2], w[3:]))
+                rest_t = s.split(None, 3)[3] if len(w) > 3 else ''
+                topts = [o.strip() for o in re.findall(r'((?:sub:.*?=>.*?|derive:\S+))(?=\s+(?:sub:|derive:)|\s*$)', rest_t)]
+                u.items.append(('type', w[1], w[2], topts))
             elif w[0] == 'const':
                 u.items.append(('const', w[1], w[2]))
             elif w[0] == 'dispatch':
@@ -153,6 +155,8 @@ def parse_unit(path):
                 cur.boxiter = True
             elif first == 'foldloops':
                 cur.foldloops = True
+            elif first == 'strmatch':
+                cur.strmatch = True
             elif first == 'foldinv':
                 m = re.match(r'(\d+)\s+([\w.\-]+)\s*(?:\[([^\]]*)\])?\s*:\s*(.*)$', rest, re.S)
                 if not m:
@@ -180,7 +184,14 @@ def parse_unit(path):
                 cur.clauses.append(c)
                 pending = ((lambda c: lambda t: setattr(c, 'text', t))(c), [m.group(6)])
             elif first == 'forwhile':
-                cur.forwhile = getattr(cur, 'forwhile', []) + [int(x) for x in rest.split()]
+                mfw = re.match(r'(\d+)\s+as\s+(.+)$', rest.strip())
+                if mfw:
+                    # `forwhile N as EXPR`: loop N is `for X in <slice-valued expression>`; EXPR is that expression as it reads after rewriting
+                    cur.forwhile = getattr(cur, 'forwhile', []) + [int(mfw.group(1))]
+                    cur.forwhile_as = dict(getattr(cur, 'forwhile_as', {}))
+                    cur.forwhile_as[int(mfw.group(1))] = mfw.group(2).strip()
+                else:
+                    cur.forwhile = getattr(cur, 'forwhile', []) + [int(x) for x in rest.split()]
             elif first in ('requires', 'ensures', 'recommends', 'decreases'):
                 if first == 'decreases':
                     c = Clause('decreases', cur.qual + '.decreases', list(cur.props), '')
@@ -349,6 +360,10 @@ def global_rewrites(src, ed, a, b, log, item_ty='usize'):
     for m in src.find_code(r'Box::new\(\s*std::iter::empty\(\)\s*\)', a, b):
         ed.add(m.start(), m.end(), 'AbsIter::empty()', ('rw', 'R1a'))
         log.append('R1a')
+    # R6g: `S.replace([' ', '_'], "")` (str::replace with a set of chars and an empty replacement = delete those chars)
+    for m in src.find_code(r"([A-Za-z_][\w.]*)\.replace\(\[' ', '_'\], \"\"\)", a, b):
+        ed.add(m.start(), m.end(), f'str_strip_seps({m.group(1)})', ('rw', 'R6g'))
+        log.append('R6g')
     # R1c: Self::Item of the usize iterators
     for m in src.find_code(r'Option<Self::Item>', a, b):
         ed.add(m.start(), m.end(), f'Option<{item_ty}>', ('rw', 'R1c'))
@@ -695,6 +710,76 @@ def emit_fn(asm, unit, fs, src, canary):
                 ed.edits.append((cl_paren + 1, cl_paren + 1, f'                {c.text},\n', ('clause', c.cid)))
             ed.edits.append((cl_paren + 1, cl_paren + 1, '            decreases verif_s.len() - verif_i,\n' + tail, ('rw', 'R13')))
             log.append('R13')
+    if getattr(fs, 'strmatch', False):
+        # R16: `match X { "lit" => E1, "a" | "b" => E2, _ => E3 }` on a `&str` scrutinee X (an identifier) ->
+        #      `if str_eq(X, "lit") { E1 } else if str_eq(X, "a") || str_eq(X, "b") { E2 } else { E3 }`
+        #      (definition of matching a &str against literal patterns, arms tried in order); arm expressions verbatim
+        n16 = 0
+        for m in src.find_code(r'\bmatch\s+(\w+)\s*\{', bo, bc + 1):
+            x = m.group(1)
+            mbo = m.end() - 1
+            mbc = src.match_close(mbo)
+            arms, pos, ok = [], mbo + 1, True
+            while True:
+                while pos < mbc and (src.text[pos].isspace() or src.kind[pos] == COMMENT):
+                    pos += 1
+                if pos >= mbc:
+                    break
+                arrow = -1
+                for mm in src.find_code(r'=>', pos, mbc):
+                    arrow = mm.start()
+                    break
+                if arrow < 0:
+                    ok = False
+                    break
+                pat = src.text[pos:arrow].strip()
+                alts = [a.strip() for a in pat.split('|')]
+                if not (pat == '_' or all(re.fullmatch(r'"(?:[^"\\]|\\.)*"', a) for a in alts)):
+                    ok = False
+                    break
+                e0 = arrow + 2
+                while src.text[e0].isspace():
+                    e0 += 1
+                j, depth = e0, 0
+                while j < mbc:
+                    if src.kind[j] == CODE:
+                        c = src.text[j]
+                        if c in '([{':
+                            j = src.match_close(j)
+                            if src.text[e0] == '{' and j == src.match_close(e0):
+                                j += 1
+                                break
+                        elif c == ',':
+                            break
+                    j += 1
+                e1 = j          # end of the arm expression (exclusive)
+                k = e1
+                while k < mbc and (src.text[k].isspace() or src.kind[k] == COMMENT):
+                    k += 1
+                comma = k if k < mbc and src.text[k] == ',' and src.kind[k] == CODE else None
+                arms.append((pos, arrow + 2, pat, alts, e1, comma))
+                pos = (comma + 1) if comma is not None else e1
+            if not ok or not arms or not any(a[2] != '_' for a in arms):
+                continue       # not a match on string literals
+            if arms[-1][2] != '_':
+                raise Lost(f'{fs.qual}: match on string literals without a final `_` arm (R16 not applicable)')
+            ed.add(m.start(), m.end(), '', ('rw', 'R16'))
+            for idx, (p0, p1, pat, alts, e1, comma) in enumerate(arms):
+                if pat == '_':
+                    head = 'else {' if idx else '{'
+                else:
+                    cond = ' || '.join(f'str_eq({x}, {a})' for a in alts)
+                    head = ('else if ' if idx else 'if ') + cond + ' {'
+                ed.add(p0, p1, head, ('rw', 'R16'))
+                if comma is not None:
+                    ed.add(comma, comma + 1, ' }', ('rw', 'R16'))
+                else:
+                    ed.add(e1, e1, ' }', ('rw', 'R16'))
+            ed.add(mbc, mbc + 1, '', ('rw', 'R16'))
+            n16 += 1
+            log.append('R16')
+        if n16 == 0:
+            raise Lost(f'lost anchor: {fs.qual}: no `match` on string literals found (R16)')
     ed.soft = True
     global_rewrites(src, ed, fn_kw, bc + 1, log, item_ty)
     if getattr(fs, 'boxiter', False):
@@ -773,7 +858,7 @@ def emit_fn(asm, unit, fs, src, canary):
         kw_start, kw, lbo, lbc = loops[n]
         hdr = src.text[kw_start:lbo]
         m0 = re.match(r'for\s+(\w+)\s+in\s+(.+?)\s*$', hdr, re.S)
-        if kw != 'for' or not m0 or re.search(r'\bcontinue\b', src.text[lbo:lbc]):
+        if kw != 'for' or not m0 or any(True for _ in src.find_code(r'\bcontinue\b', lbo, lbc)):
             raise Lost(f'{fs.qual}: loop {n} is not a simple `for X in E` without `continue` (R11d not applicable)')
         x, e = m0.group(1), m0.group(2)
         exh = ' '.join(t for (w, a, t) in fs.inserts if w == 'exhaust' and a == n)
@@ -793,12 +878,18 @@ def emit_fn(asm, unit, fs, src, canary):
         kw_start, kw, lbo, lbc = loops[n]
         hdr = src.text[kw_start:lbo]
         body = src.text[lbo:lbc]
-        if kw != 'for' or re.search(r'\bcontinue\b', body):
+        if kw != 'for' or any(True for _ in src.find_code(r'\bcontinue\b', lbo, lbc)):
             raise Lost(f'{fs.qual}: loop {n} is not a `for` without `continue` (R11b not applicable)')
         m1 = re.match(r'for\s+(\w+)\s+in\s+(.+?)\.\.(?!=)(.+?)\s*$', hdr, re.S)
         m2 = re.match(r'for\s+\(\s*(\w+)\s*,\s*(\w+)\s*\)\s+in\s+(.+?)\.iter\(\)\.enumerate\(\)\s*$', hdr, re.S)
         m3 = re.match(r'for\s+(\w+)\s+in\s+&\s*([\w.]+)\s*$', hdr, re.S)
-        if m3 and not m1:
+        m4 = re.match(r'for\s+(\w+)\s+in\s+(.+?)\s*$', hdr, re.S) if n in getattr(fs, 'forwhile_as', {}) else None
+        if m4:
+            x, v = m4.group(1), fs.forwhile_as[n]
+            ed.add(kw_start, lbo, f'let mut verif_i_{x}: usize = 0; let verif_seq_{x} = {v}; while verif_i_{x} < verif_seq_{x}.len() ', ('rw', 'R11b'))
+            ed.edits.append((lbo + 1, lbo + 1, f' let {x} = &verif_seq_{x}[verif_i_{x}];', ('rw', 'R11b')))
+            ed.edits.append((lbc, lbc, f' verif_i_{x} += 1; ', ('rw', 'R11b')))
+        elif m3 and not m1:
             x, v = m3.group(1), m3.group(2)
             ed.add(kw_start, lbo, f'let mut verif_i_{x}: usize = 0; let verif_seq_{x} = &{v}; while verif_i_{x} < verif_seq_{x}.len() ', ('rw', 'R11b'))
             ed.edits.append((lbo + 1, lbo + 1, f' let {x} = &verif_seq_{x}[verif_i_{x}];', ('rw', 'R11b')))
